@@ -301,7 +301,7 @@ def _re_flat_batch(x, n):
     return np.asarray(x).reshape(n, -1)
 
 
-def _re_model(P, split, noise="both", wrap="vector"):
+def _re_model(P, split, noise="both"):
     """returns (likelihood, make_position(flat vector))"""
     import jax
     import jax.numpy as jnp
@@ -403,8 +403,8 @@ def check_re_wiener(rec):
         full = _re_flat_batch(smp.samples, nret)
         close(full.mean(axis=0), got, "sample_mean_differs_from_position", tol=1e-12,
               scale=P.scale + float(np.max(np.abs(res))))
-    classes = P.classes() + ["api_wiener", "space_" + rec["space"], "jit_%d" % rec["jit"], "nsamp_%d" % n, "noise_" + rec["noise"],
-                             "kw_" + rec["kw"], "keys_%d" % (1 if rec["split"] is None else 2),
+    classes = P.classes() + ["api_wiener", "space_" + rec["space"], "jit_%d" % rec["jit"], "nsamp_%d" % n,
+                             "noise_" + rec["noise"], "kw_" + rec["kw"], "keys_%d" % (1 if rec["split"] is None else 2),
                              "linearised" if not rec["lin"] else "linear_flag",
                              "position_given" if rec["pos"] is not None else "position_none"]
     if rec["cov"] and not default_kw:
@@ -497,7 +497,7 @@ def re_okl_recipes(draw, variant):
 
 # ====================================================================================== nifty.cl side
 def _cl_ops(P, split, rkind, lib):
-    """returns (signal domain, data domain, R operator on the signal domain, N, dense R actually built)"""
+    """returns (signal domain, data domain, R operator on the signal domain, noise covariance operator N)"""
     import nifty.cl as ift
 
     class DenseResponse(ift.LinearOperator):
